@@ -180,6 +180,42 @@ def _inline_one(P, f, raw, keep, depth):
             b.pop('noreturn', None)
             raw['blocks'].extend(new_blocks + [after])
             callid = ev.get('id')
+            # copy coalescing: `x = helper(...)` where the helper returns its own local r (one return): let the folded
+            # body compute directly into x, as the code it was extracted from did - provided no argument mentions x
+            if ret_expr is not None and ret_expr.get('k') == 'var' and ret_expr.get('name', '').endswith(sfx) and ret_expr['name'][:-len(sfx)] not in params:
+                tgt = None
+                for ob in [after] + raw['blocks']:
+                    for oe in ob['events']:
+                        if oe.get('k') == 'store' and oe.get('op') == '=' and isinstance(oe.get('rhs'), dict) and oe['rhs'].get('k') == 'callref' and oe['rhs'].get('ev') == callid \
+                                and isinstance(oe.get('lhs'), dict) and oe['lhs'].get('k') == 'var' and oe['lhs'].get('sc') == 'local':
+                            tgt = (ob, oe)
+                if tgt is not None:
+                    x = tgt[1]['lhs']
+                    mentioned = any(y.get('k') == 'var' and y.get('name') == x['name'] for a in args for y in walk(a))
+                    same_t = (x.get('t') == ret_expr.get('t'))
+                    if not mentioned and same_t:
+                        rname = ret_expr['name']
+
+                        def to_x(y):
+                            if y.get('k') == 'var' and y.get('name') == rname:
+                                z = dict(y)
+                                z['name'] = x['name']
+                                return z
+                            return None
+                        for nb in new_blocks:
+                            nb['events'] = [_map_event(e2, to_x) for e2 in nb['events']]
+                            for e2 in nb['events']:
+                                if e2.get('k') == 'decl' and e2.get('var') == rname:
+                                    e2['k'] = 'store' if e2.get('init') is not None else 'nop'
+                                    if e2['k'] == 'store':
+                                        e2['lhs'] = dict(x)
+                                        e2['rhs'] = e2.pop('init')
+                                        e2['op'] = '='
+                            nb['events'] = [e2 for e2 in nb['events'] if e2.get('k') != 'nop']
+                            if nb.get('term') and isinstance(nb['term'].get('cond'), dict):
+                                nb['term'] = dict(nb['term'], cond=_subst(nb['term']['cond'], to_x))
+                        ret_expr = dict(x)
+                        tgt[0]['events'] = [e2 for e2 in tgt[0]['events'] if e2 is not tgt[1]]
             value = ret_expr if ret_expr is not None else (dict(retvar) if nrets > 1 else None)
             if value is not None:
                 def rv(x):
